@@ -1564,3 +1564,401 @@ class _View:
 
     def __getitem__(self, i):
         return self.tn[self.site_tags[i]]
+
+
+# ----------------------------------------------------------------------------------------------
+# driver 5: compression sweeps of flat MPS / MPO, MPO-MPS gating with compression, bond expansion
+# ----------------------------------------------------------------------------------------------
+
+def _flat_dense_sites(tn, L, op):
+    """dense array with one axis per site (operator: upper and lower label of a site fused, upper major)"""
+    if op:
+        groups = [[f"k{i}", f"b{i}"] for i in range(L)]
+    else:
+        groups = [[f"k{i}"] for i in range(L)]
+    return np.asarray(tn.to_dense(*groups)).astype(np.complex128)
+
+
+@driver("C09", "flat-compress-and-gate", chunks=8, timeout=300,
+        bound="MPS and MPO, L 1..6, site-dependent physical dims 1..3 (MPO 1..2) and bond dims 1..5, 4 dtypes; "
+              "compress(form in {None, left, right, flat, every int}) open and (value / cap only) periodic L>=3, "
+              "left_compress / right_compress on sub-ranges, compress_site, caps {None, rank, rank+2, rank/2, 1}, cutoff "
+              "{0, 1e-12, default}; gate_with_mpo / gate_with_submpo / mps_gate_with_mpo_* with 9 methods, transpose, "
+              "in place; apply(compress=True), add(compress=True), expand_bond_dimension; reference: dense arrays, "
+              "dense SVD tails across each cut, independent isometry defects")
+def flat(cx):
+    import quimb.tensor as qtn
+    from quimb.tensor.tn1d import compress as cmod
+
+    rng = cx.rng
+    reps = 6 if cx.quick else 60
+    for L, op, cyclic, rep in itertools.product(range(1, 7), (False, True), (False, True), range(reps)):
+        if cyclic and L < 3:
+            continue
+        if not cx.mine():
+            continue
+        if cx.out_of_time():
+            cx.inconclusive.append("flat-compress-and-gate: time budget exhausted")
+            return
+        dt = DTYPES[int(rng.integers(4))]
+        tol = _tol(dt, 30)
+        phys = _dims_choices(rng, L, 2 if op else 3, allow_one=bool(rng.integers(3) == 0))
+        bonds = _dims_choices(rng, L, 5)
+        arrs = _chain(rng, L, phys, bonds, dt, cyclic, op)
+        form = [None, "left", "right", "flat", int(rng.integers(L)), int(rng.integers(L))][int(rng.integers(6))]
+        capmode = ("none", "rank", "big", "half", "one")[int(rng.integers(5))]
+        cutoff = (0.0, 1e-12, None)[int(rng.integers(3))]
+        p = dict(L=L, op=op, cyclic=cyclic, dtype=dt, phys=phys, bonds=bonds, rep=rep, form=str(form), cap=capmode,
+                 cutoff="default" if cutoff is None else cutoff)
+
+        def mk(arrs=arrs, cyclic=cyclic, op=op):
+            if op:
+                return qtn.MatrixProductOperator(_to_layout(arrs, "lrud", cyclic, True))
+            return qtn.MatrixProductState(_to_layout(arrs, "lrp", cyclic, False))
+
+        def prep(mk=mk, L=L, op=op, capmode=capmode, cutoff=cutoff):
+            x = mk()
+            d_in = _flat_dense_sites(x, L, op)
+            _, ranks = _cut_tails(d_in, None)
+            rank = max(ranks) if ranks else 1
+            cap = {"none": None, "rank": rank, "big": rank + 2, "half": max(1, rank // 2), "one": 1}[capmode]
+            opts = {}
+            if cap is not None:
+                opts["max_bond"] = cap
+            if cutoff is not None:
+                opts["cutoff"] = cutoff
+            return x, d_in, ranks, rank, cap, opts
+
+        def judge(x, d_in, ranks, rank, cap, centre, bound, L=L, dt=dt, tol=tol, cyclic=cyclic, bonds_checked=None, op=op):
+            """common post-conditions; centre None = no canonical promise; bound: apply the sqrt(sum tails) bound"""
+            d_out = _flat_dense_sites(x, L, op)
+            if d_out.shape != d_in.shape:
+                return f"shape {d_out.shape} != {d_in.shape}"
+            if L == 1:
+                return _close(d_out, d_in, tol, "single site")
+            if cyclic and L == 2:
+                return None
+            chis = list(x.bond_sizes())
+            sel = range(len(chis)) if bonds_checked is None else bonds_checked
+            if cap is not None and any(chis[k] > cap for k in sel):
+                return f"bond sizes {chis} exceed max_bond={cap} on bonds {list(sel)}"
+            nin = float(np.linalg.norm(d_in))
+            err = float(np.linalg.norm(d_out - d_in)) / nin
+            if cyclic:
+                # open-chain Schmidt ranks do not apply; only: untruncated => unchanged
+                if cap is None and err > 1e-2 * (1 if _is_single(dt) else 1e-4):
+                    return f"periodic, no cap: relative error {err:.3e}"
+                return None
+            exact = cap is None or cap >= rank
+            lim = 3e-3 if _is_single(dt) else 3e-6   # cutoff <= 1e-10 relative discarded weight
+            if exact and err > lim:
+                return f"nothing needs truncating (ranks {ranks}, cap {cap}) but relative error {err:.3e}"
+            tails, _ = _cut_tails(d_in, chis[:L - 1])
+            lower = np.sqrt(max(tails)) / nin
+            if err < lower * (1 - 1e-6) - lim:
+                return f"relative error {err:.3e} below the Eckart-Young bound {lower:.3e} for bonds {chis}"
+            if bound:
+                upper = np.sqrt(sum(tails)) / nin
+                if err > upper * (1 + 1e-6) + lim:
+                    return f"relative error {err:.3e} > sqrt(sum discarded sigma^2)/|x| = {upper:.3e} (bonds {chis})"
+            if centre is not None:
+                return _canon_msg(x, centre, 2e-3 if _is_single(dt) else 1e-7)
+            return None
+
+        # ---- compress(form) ----
+        def t_compress(form=form):
+            x, d_in, ranks, rank, cap, opts = prep()
+            r = x.compress(form, **opts)
+            if r is not None and r is not x:
+                return "compress() returned a different object"
+            centre = None if (form == "flat" or cyclic) else (0 if form in (None, "right") else (L - 1 if form == "left" else form))
+            return judge(x, d_in, ranks, rank, cap, centre, bound=(form != "flat" and not cyclic))
+
+        cx.check("compress(form): unchanged when untruncated, bonds <= cap, promised canonical centre, error <= sqrt(sum tails)",
+                 p, t_compress, nontrivial=L > 1)
+
+        if not op and not cyclic and L >= 2:
+            def t_compress_bra(form=form):
+                x, d_in, ranks, rank, cap, opts = prep()
+                bra = x.H
+                if form == "flat" or isinstance(form, int):
+                    return None
+                x.compress(form, bra=bra, **opts)
+                return _close(_flat_dense_sites(bra, L, False), _flat_dense_sites(x, L, False).conj(), tol, "bra mirrors the ket")
+
+            cx.check("MPS.compress(form, bra=bra) keeps bra == conj(ket)", p, t_compress_bra,
+                     nontrivial=form in (None, "left", "right"))
+
+        # ---- partial sweeps ----
+        if not cyclic and L >= 2:
+            lo = int(rng.integers(0, L - 1))
+            hi = int(rng.integers(lo + 1, L))
+            for side in ("left", "right"):
+                def t_partial(side=side, lo=lo, hi=hi):
+                    x, d_in, ranks, rank, cap, opts = prep()
+                    before = list(x.bond_sizes())
+                    if side == "left":
+                        x.right_canonize()      # centre at 0: left_compress then truncates in a canonical gauge
+                        x.left_compress(start=lo, stop=hi, **opts)
+                    else:
+                        x.left_canonize()
+                        x.right_compress(start=hi, stop=lo, **opts)
+                    after = list(x.bond_sizes())
+                    # bonds lo..hi-1 were swept; with a canonical gauge only when the sweep starts at the centre
+                    swept = list(range(lo, hi))
+                    e = judge(x, d_in, ranks, rank, cap, None, bound=False, bonds_checked=swept)
+                    if e:
+                        return e
+                    for k in range(L - 1):
+                        if k not in swept and after[k] > min(before[k], max(after)) and after[k] != before[k]:
+                            return f"bond {k} outside the swept range changed: {before[k]} -> {after[k]}"
+                    return None
+
+                cx.check(f"{side}_compress(start, stop): unchanged when untruncated, swept bonds <= cap", dict(p, lo=lo, hi=hi),
+                         t_partial)
+
+            site = int(rng.integers(L))
+
+            def t_csite(site=site):
+                x, d_in, ranks, rank, cap, opts = prep()
+                info = {}
+                x.compress_site(site, info=info, **opts)
+                adj = [k for k in (site - 1, site) if 0 <= k < L - 1]
+                e = judge(x, d_in, ranks, rank, cap, site, bound=False, bonds_checked=adj)
+                if e:
+                    return e
+                co = info.get("cur_orthog")
+                if co is not None and tuple(co) != (site, site):
+                    return f"info['cur_orthog'] = {co} after compress_site({site})"
+                return None
+
+            cx.check("compress_site(i): unchanged when untruncated, adjacent bonds <= cap, canonical around i", dict(p, site=site),
+                     t_csite)
+
+        # ---- bond expansion ----
+        if L >= 2 and not (cyclic and L == 2):
+            newb = int(rng.integers(1, 8))
+
+            def t_expand(newb=newb):
+                x = mk()
+                d_in = _flat_dense_sites(x, L, op)
+                before = list(x.bond_sizes())
+                ip = bool(rep % 2)
+                if op:
+                    r = x.expand_bond_dimension(newb, inplace=ip)
+                else:
+                    bra = x.H
+                    r = x.expand_bond_dimension(newb, bra=bra, inplace=ip)
+                if ip and r is not x:
+                    return "inplace=True returned a new object"
+                if not ip and list(x.bond_sizes()) != before:
+                    return "inplace=False changed the receiver"
+                after = list(r.bond_sizes())
+                if after != [max(b, newb) for b in before]:
+                    return f"bond sizes {before} -> {after}, expected at least {newb}"
+                e = _close(_flat_dense_sites(r, L, op), d_in, tol, "expand_bond_dimension changed the value")
+                if e:
+                    return e
+                if not op and ip:
+                    return _close(_flat_dense_sites(bra, L, False), d_in.conj(), tol, "bra not mirrored")
+                return None
+
+            cx.check("expand_bond_dimension(n, rand_strength=0): value unchanged, every bond = max(old, n)", dict(p, new_bond=newb),
+                     t_expand)
+
+        # ---- gating an MPS with an MPO and compressing ----
+        if not op and not cyclic and L >= 2:
+            bA = _dims_choices(rng, L, 3)
+            aA = _chain(rng, L, phys, bA, dt, False, True)
+            dA = _chain_dense(aA).astype(np.complex128)
+            da = _chain_dense(arrs).astype(np.complex128).reshape(-1)
+            gm = ("direct", "dm", "zipup", "zipup-first", "fit", "src", "sdc", "srcmps", "fit-zipup")[int(rng.integers(9))]
+            transpose = bool(rng.integers(2))
+            inplace = bool(rng.integers(2))
+            gcap = ("none", "chi", "big", "half")[int(rng.integers(4))]
+            seed = int(rng.integers(1000))
+            pg = dict(p, method=gm, transpose=transpose, inplace=inplace, gcap=gcap, bondsA=bA)
+
+            def t_gate(gm=gm, transpose=transpose, inplace=inplace, gcap=gcap, aA=aA, dA=dA, da=da, seed=seed, bA=bA):
+                a = mk()
+                A = qtn.MatrixProductOperator(_to_layout(aA, "lrud", False, True))
+                chi = max(i * j for i, j in zip(a.bond_sizes(), A.bond_sizes()))
+                needs_cap = gm in ("src", "sdc", "srcmps") or gm.startswith("fit")
+                cap = {"none": chi if needs_cap else None, "chi": chi, "big": chi + 3, "half": max(1, chi // 2)}[gcap]
+                ref = (dA.T if transpose else dA) @ da
+                opts = dict(max_bond=cap, cutoff=0.0 if gm not in ("src", "srcmps") else 0.0)
+                if gm in ("src", "srcmps", "fit"):
+                    opts["seed"] = seed
+                if inplace:
+                    r = a.gate_with_mpo_(A, method=gm, transpose=transpose, **opts)
+                    if r is not a:
+                        return "gate_with_mpo_ returned a new object"
+                else:
+                    r = a.gate_with_mpo(A, method=gm, transpose=transpose, **opts)
+                    e = _close(a.to_dense().reshape(-1), da, tol, "receiver changed")
+                    if e:
+                        return e
+                e = _close(A.to_dense(), dA, tol, "operator changed (inplace_mpo=False)")
+                if e:
+                    return e
+                if not isinstance(r, qtn.MatrixProductState):
+                    return f"type {type(r).__name__}"
+                if sorted(r.outer_inds()) != [f"k{i}" for i in range(L)]:
+                    return f"outer labels {r.outer_inds()}"
+                chis = list(r.bond_sizes())
+                if cap is not None and max(chis) > cap:
+                    return f"bonds {chis} exceed cap {cap}"
+                got = np.asarray(r.to_dense()).reshape(-1).astype(np.complex128)
+                err = float(np.linalg.norm(got - ref)) / max(float(np.linalg.norm(ref)), 1e-300)
+                mt = _method_tol(gm, dt)
+                if (cap is None or cap >= chi) and err > mt:
+                    return f"cap {cap} admits the product bond dimension {chi} but relative error {err:.3e} > {mt:.1e}"
+                tails, _ = _cut_tails(ref.reshape(phys), chis)
+                lower = np.sqrt(max(tails)) / max(float(np.linalg.norm(ref)), 1e-300)
+                if err < lower * (1 - 1e-6) - 10 * mt:
+                    return f"error {err:.3e} below Eckart-Young {lower:.3e}"
+                if gm == "direct":
+                    upper = np.sqrt(sum(tails)) / max(float(np.linalg.norm(ref)), 1e-300)
+                    if err > upper * (1 + 1e-6) + mt:
+                        return f"direct: error {err:.3e} > sqrt(sum tails) {upper:.3e}"
+                return _canon_msg(r, 0, 2e-3 if _is_single(dt) else 1e-7)
+
+            cx.check("MPS.gate_with_mpo(A, method): == A a (A^T a if transpose) when the cap admits it, bonds <= cap, right canonical",
+                     pg, t_gate)
+
+            fn = ("lazy", "direct", "dm", "zipup", "zipup_first", "fit", "autofit", "projector")[int(rng.integers(8))]
+
+            def t_fn(fn=fn, aA=aA, dA=dA, da=da):
+                a = mk()
+                A = qtn.MatrixProductOperator(_to_layout(aA, "lrud", False, True))
+                chi = max(i * j for i, j in zip(a.bond_sizes(), A.bond_sizes()))
+                f = getattr(cmod, "mps_gate_with_mpo_" + fn)
+                if fn == "lazy":
+                    r = f(a, A)
+                elif fn == "autofit":
+                    r = f(a, A, max_bond=chi)
+                elif fn == "fit":
+                    r = f(a, A, max_bond=chi)
+                else:
+                    r = f(a, A, max_bond=chi, cutoff=0.0)
+                got = np.asarray(r.to_dense([f"k{i}" for i in range(L)])).reshape(-1).astype(np.complex128)
+                ref = dA @ da
+                err = float(np.linalg.norm(got - ref)) / max(float(np.linalg.norm(ref)), 1e-300)
+                mt = {"lazy": _tol(dt, 10), "autofit": 1e-2 if _is_single(dt) else 1e-4,
+                      "projector": 1e-2 if _is_single(dt) else 1e-5}.get(fn, _method_tol(fn.replace("_", "-"), dt))
+                if err > mt:
+                    return f"mps_gate_with_mpo_{fn} with max_bond = product bond dimension {chi}: relative error {err:.3e} > {mt:.1e}"
+                if fn != "lazy" and max(r.bond_sizes()) > chi:
+                    return f"bonds {r.bond_sizes()} exceed {chi}"
+                e = _close(a.to_dense().reshape(-1), da, tol, "state changed") or _close(A.to_dense(), dA, tol, "operator changed")
+                return e
+
+            cx.check("mps_gate_with_mpo_<method>(mps, mpo, max_bond=chi) == A a", dict(p, fn=fn, bondsA=bA), t_fn)
+
+            # apply(compress=True) / add(compress=True)
+            acap = ("none", "chi", "half")[int(rng.integers(3))]
+
+            def t_apply_c(aA=aA, dA=dA, da=da, acap=acap):
+                a = mk()
+                A = qtn.MatrixProductOperator(_to_layout(aA, "lrud", False, True))
+                chi = max(i * j for i, j in zip(a.bond_sizes(), A.bond_sizes()))
+                cap = {"none": None, "chi": chi, "half": max(1, chi // 2)}[acap]
+                r = A.apply(a, compress=True, max_bond=cap, cutoff=0.0)
+                if cap is not None and max(r.bond_sizes()) > cap:
+                    return f"bonds {r.bond_sizes()} exceed cap {cap}"
+                ref = dA @ da
+                got = np.asarray(r.to_dense()).reshape(-1)
+                err = float(np.linalg.norm(got - ref)) / max(float(np.linalg.norm(ref)), 1e-300)
+                lim = 3e-3 if _is_single(dt) else 1e-7
+                if (cap is None or cap >= chi) and err > lim:
+                    return f"apply(compress=True) untruncated: relative error {err:.3e}"
+                tails, _ = _cut_tails(ref.reshape(phys), list(r.bond_sizes()))
+                upper = np.sqrt(sum(tails)) / max(float(np.linalg.norm(ref)), 1e-300)
+                if err > upper * (1 + 1e-6) + lim:
+                    return f"apply(compress=True): error {err:.3e} > sqrt(sum tails) {upper:.3e}"
+                B = qtn.MatrixProductOperator(_to_layout(aA, "lrud", False, True))
+                r2 = A.apply(B, compress=True, max_bond=cap, cutoff=0.0)
+                if cap is not None and max(r2.bond_sizes()) > cap:
+                    return f"op-op bonds {r2.bond_sizes()} exceed cap {cap}"
+                if cap is None:
+                    return _close(r2.to_dense(), dA @ dA, 30 * tol, "A.apply(A, compress=True)")
+                return None
+
+            cx.check("MPO.apply(x, compress=True, max_bond): bonds <= cap, == dense product when untruncated, error bound",
+                     dict(p, acap=acap, bondsA=bA), t_apply_c)
+
+            bb = _dims_choices(rng, L, 3)
+            ab = _chain(rng, L, phys, bb, dt, False, False)
+            db = _chain_dense(ab).astype(np.complex128).reshape(-1)
+
+            def t_add_c(ab=ab, db=db, da=da):
+                a = mk()
+                b = qtn.MatrixProductState(_to_layout(ab, "lrp", False, False))
+                r = a.add_MPS(b, compress=True, cutoff=1e-12)
+                e = _close(np.asarray(r.to_dense()).reshape(-1), da + db, 30 * tol, "add_MPS(compress=True)")
+                if e:
+                    return e
+                r2 = a.add_MPS(a, compress=True, cutoff=1e-12 if not _is_single(dt) else 1e-6)
+                e = _close(np.asarray(r2.to_dense()).reshape(-1), 2 * da, 30 * tol, "a + a compressed")
+                if e:
+                    return e
+                _, ranks = _cut_tails(da.reshape(phys), None)
+                if not _is_single(dt) and list(r2.bond_sizes()) != ranks:
+                    return f"a + a compressed to bonds {r2.bond_sizes()}, Schmidt ranks of a are {ranks}"
+                r3 = a.add_MPS(b, compress=True, max_bond=1, cutoff=0.0)
+                if max(r3.bond_sizes()) > 1:
+                    return f"max_bond=1 gives {r3.bond_sizes()}"
+                return None
+
+            cx.check("add_MPS(compress=True): == dense sum when only zeros are cut, a + a returns to the ranks of a, cap respected",
+                     dict(p, bondsB=bb), t_add_c)
+
+            # sub-MPO gating with compression
+            m = int(rng.integers(1, L + 1))
+            sites = [int(s) for s in rng.permutation(L)[:m]]
+            sp = [phys[s] for s in sites]
+            M = _rnd(rng, (int(np.prod(sp)),) * 2, dt)
+            sm = ("direct", "dm", "zipup", "fit", "lazy")[int(rng.integers(5))]
+            srev = bool(rng.integers(2))
+            swhere = bool(rng.integers(2))
+
+            def t_sub(sites=sites, sp=sp, M=M, sm=sm, da=da, transpose=transpose, srev=srev, swhere=swhere, inplace=inplace):
+                a = mk()
+                S = qtn.MatrixProductOperator.from_dense(M, dims=sp, sites=sites, L=L)
+                E = _embed(M.astype(np.complex128), phys, sites)
+                ref = (E.T if transpose else E) @ da
+                info = {}
+                opts = {}
+                if sm != "lazy":
+                    opts = dict(max_bond=64, cutoff=0.0)
+                    if sm != "fit":
+                        opts["sweep_reverse"] = srev
+                kw = dict(where=tuple(sorted(sites))) if swhere else {}
+                r = a.gate_with_submpo(S, method=sm, transpose=transpose, info=info, inplace=inplace, **kw, **opts)
+                if inplace and r is not a:
+                    return "inplace=True returned a new object"
+                if not inplace:
+                    e = _close(a.to_dense().reshape(-1), da, tol, "receiver changed")
+                    if e:
+                        return e
+                got = np.asarray(r.to_dense([f"k{i}" for i in range(L)])).reshape(-1).astype(np.complex128)
+                err = float(np.linalg.norm(got - ref)) / max(float(np.linalg.norm(ref)), 1e-300)
+                mt = _method_tol(sm if sm != "lazy" else "direct", dt)
+                if err > mt:
+                    return f"gate_with_submpo({sm}): relative error {err:.3e} > {mt:.1e}"
+                if sm != "lazy":
+                    if r.num_tensors != L:
+                        return f"{r.num_tensors} tensors"
+                    co = info.get("cur_orthog")
+                    if co is not None and sm != "fit":
+                        lo_, hi_ = (co, co) if isinstance(co, int) else co
+                        ld, rd = _iso_defects(r)
+                        ct = 2e-3 if _is_single(dt) else 1e-7
+                        bad = [i for i in range(lo_) if ld[i] > ct] + [i for i in range(hi_ + 1, L) if rd[i] > ct]
+                        if bad:
+                            return f"info['cur_orthog'] = {co} but sites {bad} are not isometric towards it"
+                return None
+
+            cx.check("MPS.gate_with_submpo(S, method): == embedded operator @ a, recorded centre is true",
+                     dict(p, sub_sites=sites, method=sm, transpose=transpose, sweep_reverse=srev, where_given=swhere, inplace=inplace),
+                     t_sub)
